@@ -77,8 +77,8 @@ HangBinop(t, ectx0) ==
 (***************************************************************************)
 AllContexts == {"local", "local2", "assign", "return", "return2", "if", "while", "repeat",
                 "arg", "arg2", "argfirst", "tpos", "tposfirst", "tname", "tkey", "index",
-                "prefix", "prefixl", "prefixm", "prefixi", "numfor", "genfor", "compound", "ifexp_then", "ifexp_else", "elseif"}
-LuauContexts == {"compound", "ifexp_then", "ifexp_else"}
+                "prefix", "prefixl", "prefixm", "prefixi", "castop", "numfor", "genfor", "compound", "ifexp_then", "ifexp_else", "elseif"}
+LuauContexts == {"compound", "ifexp_then", "ifexp_else", "castop"}
 CondCtx == {"if", "while", "repeat", "elseif"}
 
 F1(e) == Block(<<e>>)
@@ -105,6 +105,8 @@ CtxProgram(c, e) ==
     [] c = "prefixl"   -> F1(Local(<<"x">>, <<Chain(<<Par(e), CallArgs(<<>>)>>)>>))
     [] c = "prefixm"   -> F1(Local(<<"x">>, <<Chain(<<Par(e), N("mcall", "m", <<CallArgs(<<Num("1")>>)>>)>>)>>))
     [] c = "prefixi"   -> F1(Local(<<"x">>, <<Chain(<<Par(e), Leaf("dot", "k")>>)>>))
+    \* the parenthesised operand of a type assertion: `::` binds tighter than any operator inside
+    [] c = "castop"    -> F1(Local(<<"x">>, <<Cast(Par(e), "T")>>))
     [] c = "numfor"    -> F1(NumFor("i", e, Num("2"), EmptyBlock))
     [] c = "genfor"    -> F1(GenFor(<<"k">>, <<e>>, EmptyBlock))
     [] c = "compound"  -> F1(Compound("+=", Name("x"), e))
@@ -125,7 +127,7 @@ CtxPath(c) ==
     [] c = "tkey"      -> <<1, 2, 1, 1, 1>>
     [] c = "index"     -> <<1, 2, 1, 2, 1>>
     [] c = "prefix"    -> <<1, 1, 1, 1>>
-    [] c \in {"prefixl", "prefixm", "prefixi"} -> <<1, 2, 1, 1, 1>>
+    [] c \in {"prefixl", "prefixm", "prefixi", "castop"} -> <<1, 2, 1, 1, 1>>
     [] c = "numfor"    -> <<1, 2>>
     [] c = "genfor"    -> <<1, 2, 1>>
     [] c = "compound"  -> <<1, 2>>
